@@ -1,3 +1,5 @@
+#[cfg(renoir_verif)]
+use simrt::stdshim as std;
 use std::time::{Duration, Instant};
 
 use super::super::*;
